@@ -33,6 +33,9 @@ def sym_scalar(x, /, **kw):
         if isinstance(x, SymArray) and all(isinstance(e, SymFloat) for e in x.a.flat):
             return x          # np.asarray returns a float64 array itself (no copy): callers that write into it are visible
         return ew_arr(lambda e: tf(e), x)
+    if S.box_scalars and S.explorer is not None and isinstance(x, (int, float)) and not isinstance(x, bool):
+        # a 0-d array that may later be updated in place with a symbolic operand (`acc = scalar(0.0); acc += d`)
+        return SymArray(_obj(core.const(float(x))))
     import fuzzylite
     return _np.asarray(x, dtype=fuzzylite.library.settings.float_type, **kw)
 
